@@ -4,6 +4,7 @@ import TinsModel.Wire.Chain.FixL2
 import TinsModel.Wire.Chain.FixIp6
 import TinsModel.Wire.Chain.FixIcmp
 import TinsModel.Wire.Chain.FixApp
+import TinsModel.Wire.Chain.FixWifi
 /-
   Second-serialization fixed point, part 3: **the one-layer step for every covered class** (`fix_all`) over the interface the
   registry uses.
@@ -20,19 +21,8 @@ namespace Tins.Wire.ChainAll
 open Tins Tins.Wire
 open Tins.Wire.L2 (layerView splitRaw stripView padOf ViewEq IsTail TailInner cxOf)
 
-/-- classes `fix_all` covers so far -/
-def FixCov : AnyObj → Prop
-  | .raw _ => True
-  | .l2 _ => True
-  | .ip6 _ => True
-  | .icmp _ => True
-  | .app _ => True
-  | .ip _ => True
-  | .tr _ => True
-  | _ => False
-
 /-- **the one-layer step of the second-serialization fixed point, every covered class** -/
-theorem fix_all (ps ps' : List LayerInfo) (x : AnyObj) (os os' : List AnyObj) (hok : LayerOK x os) (hcov : FixCov x)
+theorem fix_all (ps ps' : List LayerInfo) (x : AnyObj) (os os' : List AnyObj) (hok : LayerOK x os)
     (hna : NoApp x) (hpay : (splitRaw (x :: os)).2 ≠ [])
     (region io : Bytes)
     (hlen : region.length = x.hdr + sizeOfStack os + x.trl (sizeOfStack os))
@@ -221,7 +211,55 @@ theorem fix_all (ps ps' : List LayerInfo) (x : AnyObj) (os os' : List AnyObj) (h
     | dhcpv6 s =>
       have := nextA_none (none_link hlink); subst this
       exact absurd (splitRaw_single _ rfl) hpay
-  | wifi o => exact hcov.elim
+  | wifi o =>
+    cases o with
+    | dot11 d =>
+      have hk0 : k = 0 := k_zero_of_not_padOK hk (fun h => h) rfl
+      subst hk0
+      have he0 : e2 = 0 := by
+        rcases he2 with h | ⟨h, _⟩
+        · exact h
+        · exact h
+      subst he0
+      rw [List.replicate_zero, List.append_nil] at hp
+      have hlen0 : region.length = d.hdrSize + sizeOfStack os := hlen
+      have hio' : region.drop d.hdrSize = io := by rw [← hio]; exact (take_drop_fullA region d.hdrSize _ hlen0).symm
+      exact fix_of_simple _ x' os os' _ region io out 0 rfl hlen hio hsz
+        (dot11_fix (cxOf ps' os') d os hinv hser hside hlink n hn region io hlen0 hio' hnil hraw hpos out hw x' inner hp)
+    | eapol e =>
+      have he0 : e2 = 0 := by
+        rcases he2 with h | ⟨_, h⟩
+        · exact h
+        · exact h.symm
+      subst he0
+      have hk' : k = 0 ∨ n = "EAPOL" ∨ n = "EAPOL*" := by
+        rcases hk with h | ⟨_, h | ⟨_, h⟩⟩
+        · exact .inl h
+        · exact h.elim
+        · exact .inr h
+      have hlen0 : region.length = e.hdrSize + sizeOfStack os := hlen
+      have hio' : region.drop e.hdrSize = io := by rw [← hio]; exact (take_drop_fullA region e.hdrSize _ hlen0).symm
+      exact fix_of_simple _ x' os os' _ region io out k rfl hlen hio hsz
+        (eapol_fix (cxOf ps' os') e os hinv hside n hn k hk' region io hlen0 hio' hnil out hw x' inner hp)
+    | radiotap t =>
+      have hname : n = "RadioTap" := by rcases hn with h | h; exact h; exact h.elim
+      subst hname
+      have hk0 : k = 0 := k_zero_of_not_padOK hk (fun h => h) rfl
+      subst hk0
+      have he0 : e2 = 0 := by
+        rcases he2 with h | ⟨_, h⟩
+        · exact h
+        · exact h.symm
+      subst he0
+      rw [List.replicate_zero, List.append_nil] at hp
+      rcases radiotap_link_cases t os hlink with ⟨rfl, _⟩ | ⟨d, r, rfl, _⟩
+      · exact absurd (splitRaw_single _ rfl) hpay
+      · have hne' : (cxOf ps' os').inners.isEmpty = false := by rw [hsim.isEmpty]; rfl
+        have h4 : 4 ≤ io.length + t.trl := by
+          have := dot11_size_ge d r
+          omega
+        exact radiotap_fix (cxOf ps (.wifi (.dot11 d) :: r)) (cxOf ps' os') t hinv hside _ os' rfl hne' rfl rfl region io hlen hio
+          h4 out hw x' inner hp hsz
   | ip o =>
     cases o with
     | ip i =>
